@@ -8,7 +8,8 @@ PROPERTY = "C14"
 RULE = (
     "U1 search scenarios whose ruledb is a tee: every add is forwarded to a RuleDB and a RuleDBForgetStrategy "
     "linked to the same searcher (the searcher's questions are answered by one of them, chosen by the case). "
-    "Packs include verification strategies (enumeration / pack) that apply to classes other strategies also expand. "
+    "Packs include verification strategies (enumeration / pack) that apply to classes other strategies also expand. Sub-check "
+    "'lockstep': two separate searchers (one per database) driven level by level through the same scenario. "
     "Non-trivial: >=6 insertions and a non-atom verification strategy verified at least one class. Distinct = "
     "distinct canonical JSON of the scenario."
 )
@@ -17,7 +18,8 @@ LEVEL_TEXT = (
     "label, on has_specification (queried on a generated subset of steps and at the end, on both, because the query "
     "marks labels), on the set of stored rules and on contains(parent, children) for stored keys, permuted children "
     "and non-stored keys; the strategy each hands back for a stored key of a non-empty class must reproduce that key "
-    "when re-applied; at the end the specification rules of both satisfy the C02 oracles."
+    "when re-applied; at the end the specification rules of both satisfy the C02 oracles. In 'lockstep' the two searches must "
+    "label the same classes in the same order, store the same rules, verify the same labels and answer has_specification alike after every level."
 )
 LEVEL_NOTE = "Trusted: the tee (forwards calls verbatim, in the same order, to both databases)."
 TECHNIQUE = "differential property-based testing of two implementations fed the same generated histories (Hypothesis)"
@@ -193,6 +195,96 @@ def run_case(case, ctx):
             ctx.label("non-atom-verified")
 
 
+def _snapshot(searcher):
+    cdb = searcher.classdb
+    n = len(cdb.label_dict)
+    classes = []
+    for l in range(n):
+        try:
+            classes.append(repr(cdb.get_class(l)))
+        except Exception as e:  # judged by the comparison below
+            classes.append(f"<{type(e).__name__}>")
+    db = searcher.ruledb
+    return {
+        "classes": classes,
+        "rules": sorted(set(db)),
+        "verified": [l for l in range(n) if db.is_verified(l)],
+    }
+
+
+def run_lockstep(case, ctx):
+    """Two separate searchers, one per database, driven level by level through the same
+    work: after every level they must have labelled the same classes in the same order,
+    stored the same rules and verified the same labels, and answer has_specification alike
+    (a database that answers a lookup differently, or labels classes on the side, makes
+    the two searches drift apart)."""
+    from comb_spec_searcher.exception import NoMoreClassesToExpandError
+
+    from vf.scenario import make_searcher, requiet
+
+    levels = int(case.get("levels", 4))
+    with scenario_context(case) as clock:
+        try:
+            start, pack, sa = make_searcher(dict(case, db="RuleDB"))
+            _, _, sb = make_searcher(dict(case, db="Forget"))
+        except Exception:
+            ctx.label("search-crash")
+            return
+        finished = False
+        nrules = 0
+        for level in range(levels):
+            res = []
+            for name, s_ in (("RuleDB", sa), ("RuleDBForgetStrategy", sb)):
+                try:
+                    s_.do_level()
+                    res.append("ok")
+                except NoMoreClassesToExpandError:
+                    res.append("done")
+                except Exception as e:
+                    res.append("raised " + describe_exc(e))
+                finally:
+                    requiet()
+            if any(r.startswith("raised") for r in res):
+                # a crash on both sides is a search crash (counted elsewhere); on one side only it is a difference
+                if res[0].split(" at ")[0] != res[1].split(" at ")[0]:
+                    ctx.fail("lockstep-raises", f"level {level}: RuleDB search {res[0]}, memory-saving search {res[1]}", "lockstep-raises")
+                ctx.count("search_crashes:" + res[0][:100])
+                return
+            ctx.check(res[0] == res[1], "lockstep-exhaustion", f"level {level}: RuleDB search is {res[0]}, memory-saving search is {res[1]}")
+            try:
+                snap_a, snap_b = _snapshot(sa), _snapshot(sb)
+            except Violation:
+                raise
+            except Exception as e:
+                ctx.fail("lockstep-snapshot", f"reading the universes raised {describe_exc(e)}", "lockstep-snapshot/raises")
+                return
+            for key in ("classes", "rules", "verified"):
+                if snap_a[key] != snap_b[key]:
+                    only_a = [x for x in snap_a[key] if x not in snap_b[key]][:3]
+                    only_b = [x for x in snap_b[key] if x not in snap_a[key]][:3]
+                    ctx.fail(
+                        "lockstep-" + key,
+                        f"after level {level} the two searches differ in {key}: {len(snap_a[key])} vs {len(snap_b[key])}; only RuleDB {only_a}, only memory-saving {only_b}",
+                        "lockstep-" + key,
+                    )
+                    return
+            nrules = len(snap_a["rules"])
+            # lookups of stored strategies (what the memory-saving database recomputes)
+            for k_ in snap_b["rules"][:40]:
+                for db in (sa.ruledb, sb.ruledb):
+                    try:
+                        _ = db.rule_to_strategy[k_] if k_ in db.rule_to_strategy else db.eqv_rule_to_strategy[k_]
+                    except Exception:
+                        pass
+            ha, hb = sa.has_specification(), sb.has_specification()
+            ctx.check(ha == hb, "lockstep-has_specification", f"after level {level}: RuleDB {ha}, memory-saving {hb}")
+            if res[0] == "done":
+                finished = True
+                break
+        ctx.label("exhausted" if finished else "levels-used-up")
+        ctx.nontrivial = nrules >= 6
+
+
 from hypothesis import strategies as st  # noqa: E402
 
 
@@ -204,8 +296,23 @@ def tee_scenario(draw, tier="quick"):
     return case
 
 
+@st.composite
+def lockstep_scenario(draw, tier="quick"):
+    case = draw(gen.scenario(tier, dbs=["RuleDB"], allow_reverse_template=False))
+    case["levels"] = draw(st.integers(2, 6))
+    case["debug"] = False
+    return case
+
+
 def subchecks():
     return [
+        SubCheck(
+            name="lockstep",
+            run_case=run_lockstep,
+            strategy=lambda tier: lockstep_scenario(tier),
+            examples={"quick": 3000, "thorough": 60000},
+            case_timeout=30.0,
+        ),
         SubCheck(
             name="tee",
             run_case=run_case,
